@@ -276,7 +276,11 @@ fn burst(addr: &Addr, n: usize, tag: &str) -> (Vec<Client>, usize) {
 fn trial_b(ctx: &Ctx, cs: u64) {
     let rep = &ctx.rep;
     let mut rng = Rng::new(cs);
-    let n = *rng.pick(&[5usize, 8, 16, 64]);
+    // half of the trials: the idle period is not silent, a connection arrives every 1.6-2 s.
+    // Only the worker that serves it starts a new idle period; all the others must still retire.
+    let trickle = rng.chance(1, 2);
+    let n = if trickle { *rng.pick(&[16usize, 24]) } else { *rng.pick(&[5usize, 8, 16, 64]) };
+    let trickle_period_ms = 1600 + rng.range(0, 400) as u64;
     let t0 = library_thread_count();
     let unix = rng.chance(1, 3);
     let (server, addr) = if unix {
@@ -319,8 +323,29 @@ fn trial_b(ctx: &Ctx, cs: u64) {
     let t_peak = library_thread_count();
     drop(conns);
     // idle period of the pool (5 s) plus margin
-    std::thread::sleep(Duration::from_millis(5000 + 2000));
+    let mut trickled = 0usize;
+    let mut trickle_answered = 0usize;
+    if trickle {
+        let t_start = std::time::Instant::now();
+        while t_start.elapsed() < Duration::from_millis(8200) {
+            std::thread::sleep(Duration::from_millis(trickle_period_ms));
+            if let Ok(mut c) = Client::connect(&addr) {
+                c.send(format!("GET /t/trickle/{} HTTP/1.1\r\nHost: h\r\nConnection: close\r\n\r\n", trickled).as_bytes());
+                trickled += 1;
+                if matches!(c.await_finals(1, &|_| false, Duration::from_millis(1500)), Got::Msg) {
+                    trickle_answered += 1;
+                }
+            }
+        }
+        // let the worker of the last one become idle again
+        std::thread::sleep(Duration::from_millis(300));
+    } else {
+        std::thread::sleep(Duration::from_millis(5000 + 2000));
+    }
     let t2 = library_thread_count();
+    // workers woken during the last idle period have started a new one: at most one per trickle
+    // connection of the last 5 s (the condition variable may hand each to a different worker)
+    let allowed_surplus = if trickle { (5000 / trickle_period_ms) as usize + 2 } else { 0 };
     // dispatch after retirement: a second burst is still served
     let n2 = *rng.pick(&[3usize, 6, 9]);
     let (conns2, answered2) = burst(&addr, n2, "two");
@@ -356,7 +381,11 @@ fn trial_b(ctx: &Ctx, cs: u64) {
     let t3 = library_thread_count();
     rep.inc("b:trials");
     let nontrivial = t_peak > t1;
-    let bsig = format!("b|N{}|N2_{}|peak{}|busydrop{}|unix{}", n, n2, t_peak, drop_while_busy, unix);
+    let bsig = format!("b|N{}|N2_{}|peak{}|busydrop{}|unix{}|trickle{}", n, n2, t_peak, drop_while_busy, unix, trickle);
+    if trickle {
+        rep.inc("b:idle_period_with_trickle");
+        rep.counts.add("b:trickle_connections", trickled as u64);
+    }
     if unix {
         rep.inc("b:unix");
     }
@@ -373,6 +402,7 @@ fn trial_b(ctx: &Ctx, cs: u64) {
         .set("library_threads_idle_server_T1", J::u(t1))
         .set("library_threads_peak", J::u(t_peak))
         .set("library_threads_after_idle_period_T2", J::u(t2))
+        .set("idle_period_with_trickle_ms", if trickle { J::I(trickle_period_ms as i64) } else { J::Null })
         .set("library_threads_second_peak", J::u(t_peak2))
         .set("library_threads_7s_after_drop", J::u(t3))
         .set("answered_first_burst", J::u(answered1))
@@ -383,10 +413,21 @@ fn trial_b(ctx: &Ctx, cs: u64) {
         rep.inconclusive("first burst not fully answered (see C08)");
         return;
     }
-    if t2 > t1 {
+    if trickle && trickle_answered != trickled {
+        rep.inconclusive("a trickle connection was not answered (see C08)");
+        return;
+    }
+    if t2 > t1 + allowed_surplus {
         finding = Some((
             "C20/idle-workers-not-reclaimed".into(),
-            format!("{} library threads before the burst, {} at the peak, still {} seven seconds after all connections were closed", t1, t_peak, t2),
+            if trickle {
+                format!(
+                    "{} library threads before the burst of {}, {} at the peak, still {} after 8.5 s in which only one connection every {} ms arrived (at most {} workers can have been woken within the last idle period)",
+                    t1, n, t_peak, t2, trickle_period_ms, allowed_surplus
+                )
+            } else {
+                format!("{} library threads before the burst, {} at the peak, still {} seven seconds after all connections were closed", t1, t_peak, t2)
+            },
         ));
     } else if answered2 != n2 {
         finding = Some(("C20/no-dispatch-after-retirement".into(), format!("second burst: {} of {} answered", answered2, n2)));
